@@ -36,10 +36,13 @@ CLAUSES = {
         ('overridden formula (errors included) is its constant; typed values; cleared cells', 'Executor: OverriddenIsConstant; Workbook4: OvVal', 'A: Gen_C04_types, Gen_C04_cleared'),
         ('blank and out-of-range targets; untouched cells keep meaning', 'Executor: UntouchedKeepMeaning; Workbook4: SizeOf', 'A: Gen_C04_far; fresh-translation oracle sample'),
         ('a rejected call changes nothing', 'Executor: RejectedSet; ExecutorImpl: marks, MarksAreOverrides; eager_sizes census', 'A: rejected calls inside replays; B: Trace_C04 rejected events'),
+        ('"an executor": several executors over one translation (class object shared / file loads separate) do not see each other; a new executor and a bare instance report the workbook', 'E2P: Isolation, NewStartsFromWorkbook, QueriesArePure, UntoldReportsWorkbook, WholeColumnFollowsOwnRows; E2PImpl Refines (fixed) / class_sizes, executor_copies, class_args censuses', 'A: Gen_E2P every history of new / drop / set steps with the snapshot of every live executor; B: Trace_E2P random interleavings over three executors'),
     ],
     'C05': [
         ('whole text consumed or parser exception', 'ImplGrammar: Accept (CFG) vs Get (first match): InvWholeOrLib; pinned census', 'A: Gen_C05 token soups and mutations'),
         ('no extra / missing arguments', 'ImplGrammar + TokenSetsData (the token sets as data)', 'A: arity part (Gen_C05M)'),
+        ('which bracket closes which: groups joined by an operator or a separator, nested and wrapped', 'Gen_C05M mode groups with the CFG verdict (Accept)', 'A: groups part (4 contexts, thorough 7)'),
+        ('no part of an accepted formula is dropped (also inside criteria); the reader hands the text on unchanged', 'marker literals (7000 + position) in every generated text; FOREIGN runs', 'A: dropped_literals oracle on every accepted case; foreign_runs through a workbook file'),
         ('whitespace, , vs ;', 'Gen_C05: spellings of one token sequence', 'A: whitespace part; B: Trace_C05'),
     ],
     'C06': [
@@ -59,6 +62,7 @@ CLAUSES = {
     'C09': [
         ('path, entry, safety take effect on the next call; idempotent repeat; file = text', 'ParserFacade (ideal) / ParserFacadeImpl (cache flags) refinement', 'A: Gen_C09 histories on real files'),
         ('processes, hash seeds, earlier translations, threads', 'TokenTables: lazy initialisation interleavings', 'A: subprocess sweeps, thread part; B: Trace_C09'),
+        ('the whole pipeline: a file replaced under its path, the cached text, the written class file, executors from file / text while the file keeps changing', 'E2PW: ExecutorKeepsItsWorkbook, PipelineLeavesOverridesAlone, TextStableUntilAnnounced, TextIsCurrentAfterAnnounce, FileEqualsText, VersionsDiffer', 'B: Trace_E2PW random pipeline histories (version observed through a marker cell)'),
     ],
     'C10': [
         ('exact numeric order; trichotomy; negations; a<b <=> b>a', 'XlCompare: Cmp3; laws as predicates on six observed booleans (MC_XlCompare)', 'A: Gen_C10 grid pairs (literal, cell, override); B: Trace_C10'),
